@@ -4,7 +4,7 @@
    arbitrary; x ranges over every variable name. *)
 From Coq Require Import List NArith Bool Arith Lia.
 Import ListNotations.
-From JV Require Import Model.Imp Spec.ImpSpec Proofs.ImpProofs.
+From JV Require Import Model.Imp Spec.ImpSpec Proofs.ImpProofs Proofs.ImpEquiv.
 From JV Require Lib.PyImp.
 
 (* include: `template.new_context(context.get_all(), True, {locals})` makes exactly the current
@@ -23,37 +23,35 @@ Print Assumptions C05_include_visibility.
 
 (* import / from-import `with context` is make_module(context.get_all(), True, {locals}):
    the include rule (same constructor); without context (the default) the target sees its own
-   globals first and then the importing template's globals — nothing else.  Stated in full it is
-   false (next theorem); it holds for every context whose parent still carries the globals'
-   values under the globals' keys. *)
-Theorem C05_import_visibility_partial : forall (c : ctx) (g : env),
-  intact c ->
-  exists c', import_ctx c g = Ok c' /\
+   globals first and then the importing template's globals — nothing else, in particular no render
+   variable that happens to carry a global's name.  Full since the repair recorded in
+   known_findings.d/C05.json (the values are taken from the globals mapping, not from ctx.parent);
+   ctx_wf (globals_keys = keys of that mapping) holds for every context the engine builds. *)
+Theorem C05_import_visibility : forall (c : ctx) (g : env),
+  ctx_wf c ->
+  exists c', import_ctx c g = Ok c' /\ ctx_wf c' /\
     forall x, resolve [] c' x = match dget x g with Some v => Some v | None => dget x (c_globals c) end.
 Proof. intros c g H. exact (import_lookup c g H). Qed.
-Print Assumptions C05_import_visibility_partial.
+Print Assumptions C05_import_visibility.
 
-(* the guard holds for the context of a top-level render whose data does not reuse a key of
-   the template's globals (and for default-module contexts: data = []) *)
-Theorem C05_import_guard_root : forall (data g : env),
-  (forall k, mem k (dkeys g) = true -> dget k data = None) ->
-  intact (new_context (Some data) false g []).
-Proof. intros data g H. exact (intact_root data g H). Qed.
-Print Assumptions C05_import_guard_root.
+Theorem C05_ctx_wf_constructed : forall vars shared g L, ctx_wf (new_context vars shared g L).
+Proof. intros. exact (new_context_wf vars shared g L). Qed.
+Print Assumptions C05_ctx_wf_constructed.
 
-(* refutation of the unguarded statement: the template has the global mg = "MG", the render data
-   contains mg = "D": the imported module sees "D", a context variable, under the global's name *)
-Theorem C05_import_visibility_refuted :
-  exists (c : ctx) (g : env) (c' : ctx) (x : name),
-    c = new_context (Some [(8%N, VStr [68%N])]) false [(8%N, VStr [77%N; 71%N])] [] /\
-    import_ctx c g = Ok c' /\
-    resolve [] c' x <> match dget x g with Some v => Some v | None => dget x (c_globals c) end.
-Proof.
-  exists (new_context (Some [(8%N, VStr [68%N])]) false [(8%N, VStr [77%N; 71%N])] []), [].
-  eexists. exists 8%N. split; [reflexivity|]. split; [vm_compute; reflexivity|].
-  vm_compute. discriminate.
-Qed.
-Print Assumptions C05_import_visibility_refuted.
+(* whole renders: for EVERY template set of the modelled language, every main template, render
+   data and recursion bound, the interpreter run with the implementation's context constructors
+   (copied / updated dicts, globals_keys difference, try-each selection) and run with the documented
+   visibility rules (lookup order, first existing name) give the same text or the same exception,
+   and the same module (body text and exported attributes) *)
+Theorem C05_render_equiv : forall (fuel : nat) (ts : tset) (main : tname) (data : env),
+  render fuel ts main data = spec_render fuel ts main data.
+Proof. intros. exact (render_equiv_gen fuel ts main data). Qed.
+Print Assumptions C05_render_equiv.
+
+Theorem C05_module_equiv : forall (fuel : nat) (ts : tset) (main : tname),
+  module_of fuel ts main = spec_module fuel ts main.
+Proof. intros. exact (module_equiv_gen fuel ts main). Qed.
+Print Assumptions C05_module_equiv.
 
 (* a module exposes exactly the public names whose LAST top-level binder is an assignment or a
    macro: imported names are not re-exported, names starting with "_" never — for every template
